@@ -107,6 +107,37 @@ let x_run name (a : string array) emit =
                     (x_state (if k = "frag" then `F frag_zero else `R rtg_zero))))
   | _ -> failwith ("Lip6 x op: " ^ name)
 
+
+(* ---- seq: stacks written with SerializeLayers into one reused buffer.  Clear() empties the buffer's
+   layer list, so every packet starts from []; within a stack the layers pushed so far are passed to
+   IPv6 (2 = Payload, 46 = IPv6HopByHop).  The result does not depend on the junk (C07_ip6_junk_free). *)
+let seq_spec (spec : string) : string =
+  let kind = spec.[0] and rest = String.sub spec 1 (String.length spec - 1) in
+  let show = function
+    | Base.Ok b -> "ok:" ^ big b
+    | r -> cls_name r ^ ":" in
+  let two = z_of_int 2 and hb = z_of_int 46 in
+  let with_own_hbh (l : M.ip6) (h : M.ext) payload =
+    match M.ext_serialize h payload true true [] with
+    | (Base.Ok eb, h') -> show (fst (M.ip6_serialize_in [two; hb] { l with M.p_hbh = Some h' } eb true true []))
+    | (r, _) -> show r in
+  match kind with
+  | 'P' ->
+    let ((l, r), _) = M.ip6_decode_into M.ip6_fresh (bytes_of_hex rest) in
+    (match r with
+     | Base.Ok _ ->
+       (match l.M.p_hbh with
+        | Some h -> with_own_hbh l h h.M.e_payload
+        | None -> show (fst (M.ip6_serialize_in [two] l l.M.p_payload true true [])))
+     | _ -> "x")
+  | 'L' | 'H' ->
+    let (f, pl) = split_first '^' rest in
+    let l = build_ip6 f and payload = payload_of pl in
+    (match kind, l.M.p_hbh with
+     | 'H', Some h -> with_own_hbh l h payload
+     | _ -> show (fst (M.ip6_serialize_in [two] l payload true true [])))
+  | _ -> failwith "seq spec"
+
 let run (id : string) (ops : string list) (out : out_channel) =
   let step = ref 0 in
   let emit s = Printf.fprintf out "%s\t%d\t%s\n" id !step s; incr step in
@@ -130,6 +161,7 @@ let run (id : string) (ops : string list) (out : out_channel) =
     let fresh k = if k = "ip6" then `Ip M.ip6_fresh else `Ext M.ext_fresh in
     let build k f = if k = "ip6" then `Ip (build_ip6 f) else `Ext (build_ext f) in
     match name with
+    | "seq" -> emit ("seq=" ^ String.concat "#" (Stdlib.List.map seq_spec (split_on '+' (arg 1))))
     | "nlt" -> emit ("lt=" ^ zi (M.ipproto_layertype (zs (arg 0))))
     | "dec" ->
       let (c, tr, v) = dec (arg 0) M.ext_fresh M.ip6_fresh (bytes_of_hex (arg 1)) in
